@@ -35,6 +35,30 @@ func main() {
 		os.Exit(cmdCheck(os.Args[2:]))
 	case "list":
 		cmdList()
+	case "lemmas":
+		// gvc lemmas <Cxx>: discharge only the lemmas of a property
+		db := loadDB()
+		specFilesCache = loadSpecChunks(verifDir, db.Prelude)
+		obls, err := lemmaObligations(db, os.Args[2])
+		if err != nil {
+			fmt.Fprintln(os.Stderr, err)
+			os.Exit(2)
+		}
+		Discharge(obls, outDir+"/work/lemmas", 60)
+		for _, o := range obls {
+			fmt.Printf("%v %s %s %.2fs %s\n", o.OK(), o.Name, o.Result.Status, o.Result.Time, o.Result.Detail)
+		}
+	case "funcs":
+		prog, err := LoadProgram(repoDir, "verif", []string{os.Args[2]})
+		if err != nil {
+			fmt.Fprintln(os.Stderr, err)
+			os.Exit(2)
+		}
+		for k := range prog.funcs {
+			if strings.HasPrefix(k, os.Args[2]) {
+				fmt.Println(k)
+			}
+		}
 	case "loops":
 		// gvc loops <pkgpath> <funcname-substring>: loop ordinals with source lines
 		prog, err := LoadProgram(repoDir, "verif", []string{os.Args[2]})
